@@ -77,6 +77,21 @@ impl vstd::std_specs::ops::SubSpecImpl<BigDecimal> for BigDecimal {
     open spec fn sub_spec(self, rhs: BigDecimal) -> BigDecimal { bd_of(dsub(self.val(), rhs.val()), false) }
 }
 impl std::ops::Sub<BigDecimal> for BigDecimal { type Output = BigDecimal; #[verifier::external_body] fn sub(self, o: BigDecimal) -> BigDecimal { unimplemented!() } }
+// division and remainder: the crate's operators (division rounds to the crate's default precision: named, not exact)
+pub uninterp spec fn ddiv(a: Dec, b: Dec) -> Dec;
+pub uninterp spec fn drem(a: Dec, b: Dec) -> Dec;
+impl vstd::std_specs::ops::DivSpecImpl<BigDecimal> for BigDecimal {
+    open spec fn obeys_div_spec() -> bool { true }
+    open spec fn div_req(self, rhs: BigDecimal) -> bool { dcmp(rhs.val(), dzero()) != std::cmp::Ordering::Equal }
+    open spec fn div_spec(self, rhs: BigDecimal) -> BigDecimal { bd_of(ddiv(self.val(), rhs.val()), false) }
+}
+impl std::ops::Div<BigDecimal> for BigDecimal { type Output = BigDecimal; #[verifier::external_body] fn div(self, o: BigDecimal) -> BigDecimal { unimplemented!() } }
+impl vstd::std_specs::ops::RemSpecImpl<BigDecimal> for BigDecimal {
+    open spec fn obeys_rem_spec() -> bool { true }
+    open spec fn rem_req(self, rhs: BigDecimal) -> bool { dcmp(rhs.val(), dzero()) != std::cmp::Ordering::Equal }
+    open spec fn rem_spec(self, rhs: BigDecimal) -> BigDecimal { bd_of(drem(self.val(), rhs.val()), false) }
+}
+impl std::ops::Rem<BigDecimal> for BigDecimal { type Output = BigDecimal; #[verifier::external_body] fn rem(self, o: BigDecimal) -> BigDecimal { unimplemented!() } }
 impl vstd::std_specs::cmp::PartialEqSpecImpl for BigDecimal {
     open spec fn obeys_eq_spec() -> bool { true }
     open spec fn eq_spec(&self, other: &Self) -> bool { dcmp(self.val(), other.val()) == std::cmp::Ordering::Equal }
@@ -353,6 +368,63 @@ impl Get for Impl {
 //@@ fn nas.neq = src/functions/number_as_string/nas_compare/neq.rs :: fn get :: impl Get for Impl :: fn get
 //@@ safety C19 C04
 //@@ post exact "the comparison of the two EXACT decimals; nothing when an argument is not a decimal string"
+//@@ endfn
+}
+}
+
+pub mod n_divide {
+use super::*;
+broadcast use {bd::axiom_bd_of, cl::axiom_string_ext, st::axiom_str_of};
+//@@ item src/functions/number_as_string/nas_arithmetic/divide.rs :: fn get :: struct Impl
+//@@ rewrite pub_tuple pub_struct
+//@@ enditem
+impl Get for Impl {
+    open spec fn get_spec(&self, value: &Context) -> Option<JsonValue> {
+        match (nas_val(arg(self.0@, value, 0)), nas_val(arg(self.0@, value, 1))) { (Some(a), Some(b)) => if dcmp(b, dzero()) == std::cmp::Ordering::Equal { None } else { Some(nas_json(ddiv(a, b))) }, _ => None }
+    }
+//@@ fn nas.divide = src/functions/number_as_string/nas_arithmetic/divide.rs :: fn get :: impl Get for Impl :: fn get
+//@@ safety C19 C04
+//@@ post exact "(\"/\" a b): the crate's quotient of the two decimals, nothing when b is zero (no division by zero is ever attempted) or an argument is not a decimal string"
+//@@ endfn
+}
+}
+
+pub mod n_reminder {
+use super::*;
+broadcast use {bd::axiom_bd_of, cl::axiom_string_ext, st::axiom_str_of};
+//@@ item src/functions/number_as_string/nas_arithmetic/reminder.rs :: fn get :: struct Impl
+//@@ rewrite pub_tuple pub_struct
+//@@ enditem
+impl Get for Impl {
+    open spec fn get_spec(&self, value: &Context) -> Option<JsonValue> {
+        match (nas_val(arg(self.0@, value, 0)), nas_val(arg(self.0@, value, 1))) { (Some(a), Some(b)) => if dcmp(b, dzero()) == std::cmp::Ordering::Equal { None } else { Some(nas_json(drem(a, b))) }, _ => None }
+    }
+//@@ fn nas.reminder = src/functions/number_as_string/nas_arithmetic/reminder.rs :: fn get :: impl Get for Impl :: fn get
+//@@ safety C19 C04
+//@@ post exact "(\"%\" a b): the crate's remainder of the two decimals, nothing when b is zero or an argument is not a decimal string"
+//@@ endfn
+}
+}
+
+pub mod n_round {
+use super::*;
+broadcast use {bd::axiom_bd_of, cl::axiom_string_ext, st::axiom_str_of};
+//@@ item src/functions/number_as_string/nas_arithmetic/round.rs :: fn get :: struct Impl
+//@@ rewrite pub_tuple pub_struct
+//@@ enditem
+impl Get for Impl {
+    open spec fn get_spec(&self, value: &Context) -> Option<JsonValue> {
+        match nas_val(arg(self.0@, value, 0)) { Some(a) => Some(nas_json(dround(a, 1, 0))), None => None }
+    }
+//@@ fn nas.round = src/functions/number_as_string/nas_arithmetic/round.rs :: fn get :: impl Get for Impl :: fn get
+//@@ safety C19 C04
+//@@ post exact "(\"round\" a): the decimal rounded to zero fraction digits (the crate's round(0)); nothing when a is not a decimal string"
+//@@ insert-after ".map(|number"
+ : BigDecimal
+//@@ insert-after ".map(|number|"
+ -> (o: JsonValue) ensures o == nas_json(dround(number.val(), 1, 0)), {
+//@@ insert-after "number.round(0).into()"
+ }
 //@@ endfn
 }
 }
